@@ -63,7 +63,8 @@ def check(pm: ProgramModel, ctx: Ctx) -> None:
     ctx.not_decided = ["documents not produced by the writer (C09)",
                        "interactions between dimensions beyond the combined abstract model"]
     mb = ModelBuilder(pm)
-    cd = Codec(pm, ctx, W, R, "C08", diff_opts={"ctc_compare": ctc_equiv})
+    # the property asks for logically equivalent constraints (an n-ary AndTerm may regroup operands)
+    cd = Codec(pm, ctx, W, R, "C08", diff_opts={"ctc_compare": "semantic"})
     tree = ("relation", "parent", "name")
     # singles
     for ds, key in (((D(1, 1, 1),), "mandatory"), ((D(0, 1, 1),), "optional"),
@@ -124,6 +125,9 @@ def check(pm: ProgramModel, ctx: Ctx) -> None:
                   ("abstract", "type", "fcard", "attribute"), fragment=False)
     if ctx.tier == "thorough":
         cd.thorough_pairs(mb, BINARY_LOGICAL, "VOC")
+    from ..codec import stress_trees
+    cd.report("VOC", "stress-shapes", cd.roundtrip(ctc_model(mb, stress_trees(mb))),
+              "constraint shapes that stress normal forms", ("constraint", "constraint-count"))
     cd.finish_unowned()
     ctx.analysed["C08:compositions"] = cd.n
     ctx.floor("C08", "obligations", len(ctx.obligations), 40)
